@@ -182,7 +182,11 @@ def h_sqrt(wp, n, args, callee):
 
 
 def null_hook(wp, n):
-    """`p != nullptr` / `p == nullptr` for a pointer parameter p: the ghost boolean `p_given`"""
+    """`p != nullptr` / `p == nullptr` / `p` used as a condition, for a pointer parameter p: the ghost boolean `p_given`"""
+    if n.get('kind') == 'ImplicitCastExpr' and n.get('castKind') == 'PointerToBoolean':
+        a = unwrap(n['inner'][0])
+        if a.get('kind') == 'DeclRefExpr' and a['referencedDecl'].get('name') in wp.pointers:
+            return V(f'{a["referencedDecl"]["name"]}_given', 'Bool', 'bool')
     if n.get('kind') == 'BinaryOperator' and n.get('opcode') in ('!=', '=='):
         a, b = (unwrap(x) for x in n['inner'])
         if b.get('kind') == 'DeclRefExpr':
